@@ -10,10 +10,10 @@ CHECKS = {
          "Only executions produced are judged; hang detection is a CPU-time limit per worker (never wall time); which Ok/Err is returned is other properties' business.",
          "3/C01"),
  "C05": ("runtime monitor: all 65536 extension types through three dispatchers, 16 tag parsers x 65536 types, reference-encoded contents and lists, predicted corruptions",
-         "Complete sweep of the type space through the generic, client-hello and server-hello dispatchers against independent IANA tables and per-type content generators; list parsers on generated lists; each tag parser on every wire type; empty-by-definition types with data, overlong outer/inner lengths. The type domain is swept completely; contents are sampled.",
+         "Complete sweep of the type space through the generic, client-hello and server-hello dispatchers against independent IANA tables and per-type content generators; list parsers on generated lists; each tag parser on every wire type; empty-by-definition types with data, overlong outer/inner lengths; contents at the maximum size and maximum element count their length prefixes allow; random (type, length) header soup; lists longer than 64 KiB. The type domain is swept completely; contents are sampled.",
          "Recognition sets of the client/server dispatchers are read off behaviour (typed variant or verbatim Unknown); error kinds unjudged.",
          "3/C05"),
- "C06": ("runtime monitor: value/remainder/aliasing oracle by address over 17 self-delimiting parsers x {valid, every single length-field corruption, mutations} x 4 suffix kinds; independent declared-length calculators",
+ "C06": ("runtime monitor: value/remainder/aliasing oracle by address over 33 self-delimiting parsers x {valid, every single length-field corruption, bit flips, mutations} x suffix kinds incl. > 64 KiB and > 4 GiB; independent declared-length calculators",
          "For every accepted input the parse is repeated with a suffix appended: value must be equal, the remainder must be exactly the suffix slice of the same buffer, every reachable slice must alias the consumed prefix; whenever the independent calculator says the declared length is already present the outcome class must not change (this is what catches a nested length reading into the next structure). Defragmenter results are checked for provenance through the hook.",
          "Addresses of empty slices are not judged; PskExchangeModes is an owned Vec by design.",
          "3/C06"),
@@ -58,15 +58,15 @@ CHECKS = {
          "Build probes are static observations; unsafe expanded from external macros is outside the lint.",
          "3/C18"),
  "C02": ("runtime monitor: framing oracle computed from (type, version, declared length, available bytes) over a complete type x length sweep, all versions and every prefix length",
-         "Raw and encrypted record parsers are executed on all 256 types x 65536 declared lengths (complete), all 65536 versions and every prefix of boundary/random records; the plaintext parser on generated valid records, every prefix of them, all 256 types and the 'complete record whose content wants more bytes' family. Exhaustive for the (type, length) domain of the opaque parsers; sampled for payload contents.",
+         "Raw and encrypted record parsers are executed on all 256 types x 65536 declared lengths (complete), all 65536 versions, 51 M random header triples with comparison-prone byte values (field coincidences), every prefix of boundary/random records, records followed by another record of every type and by 64-192 KiB of trailing data; the plaintext parser on generated valid records, every prefix of them, all 256 types and the 'complete record whose content wants more bytes' family. Exhaustive for the (type, length) domain of the opaque parsers; sampled for payload contents.",
          "Needed while fewer than 5 bytes are available and addresses of empty slices are not judged; plaintext message contents are C03.",
          "3/C02"),
  "C03": ("runtime monitor: reference-encoded message lists with predictable tails, one-step vs two-step differential, all alerts / all content types swept",
-         "Records are built by an independent reference encoder from generated message lists (all 65536 alerts, CCS lists, the 17 handshake variants, application data of every length class, heartbeat with padding) and must decode, by both routes, to exactly the expected crate values; malformed-first-message, empty and unknown-type records must yield no value; the two-step remainder must be the undecoded tail by address.",
+         "Records are built by an independent reference encoder from generated message lists (all 65536 alerts, CCS lists, the 17 handshake variants, application data of every length class, heartbeat with padding) and must decode, by both routes, to exactly the expected crate values; malformed-first-message, empty and unknown-type records must yield no value; the two-step remainder must be the undecoded tail by address. Also: records with the maximum number of messages, and every upward single-bit flip of the last message's 24-bit length.",
          "Reference encoder (harness/src/refenc.rs, written from the RFCs) is the trusted side; error kinds unjudged.",
          "3/C03"),
  "C04": ("runtime monitor: reference encoder round trip for 17 handshake variants + must-reject catalogue R1-R11 + structural oracle on all single length-field corruptions",
-         "Generated abstract values of every variant are encoded by the reference encoder and must parse (message parser and every public body parser) to the expected crate value with the exact remainder; the catalogue of structurally invalid encodings (A.2) must never yield a value, with complete sweeps where the domain is finite (session-id length 33..255, 65531 ServerHello versions, 240 unknown types, all ClientHello versions); accepted corrupted encodings must stay inside their 24-bit length.",
+         "Generated abstract values of every variant are encoded by the reference encoder and must parse (message parser and every public body parser) to the expected crate value with the exact remainder; the catalogue of structurally invalid encodings (A.2) must never yield a value, with complete sweeps where the domain is finite (session-id length 33..255, 65531 ServerHello versions, 240 unknown types, all ClientHello versions); accepted corrupted encodings (five classic corruptions + every single-bit flip of every length field, random header soup) must stay inside their 24-bit length; body parsers with a length parameter are run on longer and shorter buffers; lists with very many elements; every variant at the start of a buffer longer than 4 GiB.",
          "Reference encoder is the trusted side; listed unjudged behaviours (optional trailing parts, CertificateRequest two-form ambiguity) are recorded, not judged.",
          "3/C04"),
  "C17": ("runtime monitor: complete sweep of every registry newtype's integer domain against independently typed IANA tables",
